@@ -105,6 +105,43 @@ theorem outer_shape (ts os : Shape) :
   unfold outerCheck
   cases h1 : isVector ts <;> cases h2 : isVector os <;> simp [throwErr, pure, Except.pure, bind, Except.bind]
 
+/-! ### `Dot(vector, matrix)`: the transposed copy
+
+  `StdEng.Dot` hands `MatVecMul` a shallow copy of the matrix (same storage window, metadata of its
+  own) on which it called `T()`; the caller's matrix is not written (`dotCore` stores the copy as a
+  new temporary object). What that copy is: -/
+
+/-- for a matrix without pending transpose: the lazily transposed matrix (shape and strides swapped,
+    the original pattern kept as `old`), storage untouched — all sizes, all strides. -/
+theorem dot_vecmat_copy_plain (s : St) (t : Dense) (r c s0 s1 : Int)
+    (hsh : t.ap.shape = [r, c]) (hst : t.ap.strides = [s0, s1])
+    (hv : isVector [r, c] = false) (hq : isScalarEquiv [r, c] = false) (hold : t.old = none) :
+    Dense.T s t [] = .ok (s, { t with
+      ap := { shape := [c, r], strides := [s1, s0], fin := true, o := { t.ap.o with transposed := true } },
+      old := some t.ap, tw := some [1, 0] }) := by
+  have hax : (rangeI 2).reverse = [1, 0] := by decide
+  have hm : isMonotonicInts [(1:Int), 0] = (false, false) := by decide
+  simp [Dense.T, AP.T, Dense.shape, hsh, hst, hv, hq, hold, hax, hm, unsafePermute, unsafePermute.check, bind,
+    Except.bind, pure, Except.pure]
+
+/-- for a matrix that carries a pending transpose: `T()` on the copy is the undo — the copy is the
+    un-transposed matrix and nothing is moved in storage; the caller's matrix keeps its pending
+    transpose (it used to lose it: the former finding F54). -/
+theorem dot_vecmat_copy_undoes_pending (s : St) (t : Dense) (r c s0 s1 : Int) (o : AP)
+    (hsh : t.ap.shape = [r, c]) (hst : t.ap.strides = [s0, s1])
+    (hv : isVector [r, c] = false) (hq : isScalarEquiv [r, c] = false)
+    (hold : t.old = some o) (htw : t.tw = some [1, 0]) :
+    Dense.T s t [] = .ok (s, t.ut) := by
+  have hax : (rangeI 2).reverse = [1, 0] := by decide
+  have hm : isMonotonicInts [(1:Int), 0] = (false, false) := by decide
+  simp [Dense.T, AP.T, Dense.shape, hsh, hst, hv, hq, hold, htw, hax, hm, unsafePermute, unsafePermute.check, bind,
+    Except.bind, pure, Except.pure]
+  intro x hx hfalse
+  exfalso
+  match x, hx with
+  | 0, _ => revert hfalse; decide
+  | 1, _ => revert hfalse; decide
+
 /-! ### Trace -/
 
 /-- `i·(s₀+s₁)` is the address of the diagonal element `(i,i)` of any 2-d pattern with one stride
@@ -395,28 +432,38 @@ theorem inner_mapping_full_fails : ¬ inner_mapping_full := by
   have h2 : dotu natOps 6 [1, 2, 3, 4, 5, 6] [1, 2, 3, 4, 5, 6] = .ok 91 := rfl
   exact absurd (Except.ok.inj (h2.symm.trans h1)) (by decide)
 
-/-! ### F52 — `TensorMul`'s axes bookkeeping -/
+/-! ### `TensorMul`'s axes bookkeeping -/
 
-/-- capacity growth of `append` for the slices `TensorMul` builds (ranks up to 8) -/
-theorem goCap_table : (List.range 9).map goCap = [0, 1, 2, 4, 4, 8, 8, 8, 8] := by decide
+/-- The permutation handed to `T` is "free axes, then contracted axes": all ranks, all axis lists. -/
+theorem tmul_axes (td : Nat) (axesA : List Int) :
+    tmulAxesA td axesA = notIns td axesA ++ axesA := rfl
 
-/-- Witness of F52: `(2,3,4,5)·(5,2,3)` over axes `[3]`,`[0]`: the permutation handed to `T` is
-    `[1,2,2,3]` instead of `[0,1,2,3]` (a repeated axis: the contraction is refused). -/
-theorem tmul_alias_witness : tmulAxesA 4 [3] 3 [0] = [1, 2, 2, 3] ∧ Excl_tmulAlias 4 [3] 3 [0] = true := by decide
+/-- Every axis of the left operand occurs in it (all ranks, all axis lists) … -/
+theorem tmul_axes_covers (td : Nat) (axesA : List Int) (i : Int) (hi : i ∈ rangeI td) :
+    i ∈ tmulAxesA td axesA := by
+  unfold tmulAxesA notIns
+  by_cases h : axesA.contains i = true
+  · exact List.mem_append_right _ (by simpa using h)
+  · exact List.mem_append_left _ (List.mem_filter.mpr ⟨hi, by simpa using h⟩)
 
-/-- Without the aliasing the permutation is "free axes, then contracted axes". -/
-theorem tmul_axes_partial (td od : Nat) (axesA axesB : List Int) (h : Excl_tmulAlias td axesA od axesB = false) :
-    tmulAxesA td axesA od axesB = notIns td axesA ++ axesA := by
-  unfold Excl_tmulAlias at h
-  simpa using h
-
-/-- On the property's domain (ranks ≤ 4, one contraction axis per operand) the aliasing only strikes
-    a rank-4 left operand, and then the corrupted permutation always repeats an axis — so `T` refuses
-    it: a spurious refusal, never a silently different contraction. -/
-theorem tmul_alias_is_refused :
-    ((List.range 5).all fun td => (List.range td).all fun a => (List.range 5).all fun od => (List.range od).all fun b =>
-      !Excl_tmulAlias td [(a : Int)] od [(b : Int)] ||
-        (td == 4 && (tmulAxesA td [(a : Int)] od [(b : Int)]).eraseDups.length < 4)) = true := by
+/-- … and on the property's domain (ranks ≤ 5, one or two valid contraction axes) exactly once: it is
+    a permutation of the axes, so `T` never refuses it for a repeated axis. -/
+theorem tmul_axes_is_permutation :
+    ((List.range 6).all fun td => (List.range td).all fun a =>
+      ((tmulAxesA td [(a : Int)]).length == td && (tmulAxesA td [(a : Int)]).eraseDups.length == td) &&
+      (List.range td).all fun b => a == b ||
+        ((tmulAxesA td [(a : Int), (b : Int)]).length == td &&
+         (tmulAxesA td [(a : Int), (b : Int)]).eraseDups.length == td)) = true := by
   decide
+
+/-- A contraction of extent one (no contraction axes = an outer product of tensors, or axes of
+    length one) flattens the operands to `(m,1)` and `(1,n)`: `MatMul`, which `TensorMul` calls,
+    accepts them with the result shape `(m,n)` — for every `m`, `n`, vector forms included. -/
+theorem tmul_unit_contraction_accepted (m n : Int) : mmCheck [m, 1] [1, n] = .ok [m, n] := by
+  simpa using mm_shape m 1 1 n
+
+/-- The former witness of the aliasing, `(2,3,4,5)·(5,2,3)` over axes `[3]`,`[0]`: the identity
+    permutation. -/
+theorem tmul_axes_instance : tmulAxesA 4 [3] = [0, 1, 2, 3] := by decide
 
 end TM.C09
